@@ -24,7 +24,7 @@ def run(prop, tier, seed, ctx):
                        "contextualize/set_formatter calls) exported by TLC at the depth bound, replayed step by step "
                        "with the projected state compared after every call; non-trivial = contains an override, a "
                        "raising outcome or a delayed condition; distinct = distinct action sequence")
-    cfgs = ["MC_Lifecycle_q.cfg", "MC_Lifecycle_none_q.cfg", "MC_Lifecycle_inherit_q.cfg"] if tier == "quick" else ["MC_Lifecycle_q.cfg", "MC_Lifecycle_none_q.cfg", "MC_Lifecycle_inherit_q.cfg", "MC_Lifecycle_t.cfg"]
+    cfgs = ["MC_Lifecycle_q.cfg", "MC_Lifecycle_none_q.cfg", "MC_Lifecycle_inherit_q.cfg", "MC_Lifecycle_fmt_q.cfg"] if tier == "quick" else ["MC_Lifecycle_q.cfg", "MC_Lifecycle_none_q.cfg", "MC_Lifecycle_inherit_q.cfg", "MC_Lifecycle_fmt_q.cfg", "MC_Lifecycle_t.cfg"]
     for cfg in cfgs:
         res = tlc.run("Lifecycle", cfg, workers=8, timeout=1800)
         tlc.require_ok(res, cfg)
